@@ -106,6 +106,7 @@ type Exec struct {
 	ufunDecl  []string
 	lemmasUsed map[string]bool
 	nReturns   int
+	callbackModelled bool
 	recActive map[*Pred]bool
 	recInst   map[string]*recInstance
 	readLog   map[string]Term
@@ -551,6 +552,7 @@ type cfgInfo struct {
 	order   []*ssa.BasicBlock
 	loops   map[*ssa.BasicBlock]*loopInfo
 	isBack  map[[2]int]bool
+	reach   map[*ssa.BasicBlock]bool
 }
 
 var cfgCache = map[*ssa.Function]*cfgInfo{}
@@ -619,8 +621,10 @@ func analyzeCFG(fn *ssa.Function) *cfgInfo {
 	if len(fn.Blocks) > 0 {
 		dfs(fn.Blocks[0])
 	}
+	ci.reach = map[*ssa.BasicBlock]bool{}
 	for i := len(post) - 1; i >= 0; i-- {
 		ci.order = append(ci.order, post[i])
+		ci.reach[post[i]] = true
 	}
 	cfgCache[fn] = ci
 	return ci
@@ -720,11 +724,19 @@ func (ex *Exec) execFn(fr *Frame, pc Term, st State) (Term, State, []Term) {
 	fr.entry = st
 	var rets []retRec
 	isRoot := fr.parent == nil
+	done := map[*ssa.BasicBlock]bool{}
 	for _, b := range ci.order {
 		if fn.Recover != nil && b == fn.Recover {
 			continue
 		}
 		edges := in[b]
+		done[b] = true
+		for _, p := range b.Preds {
+			if !done[p] && ci.reach[p] && !ci.isBack[[2]int{p.Index, b.Index}] && p != fn.Recover {
+				// a forward predecessor has not been executed yet: the block order is not topological
+				ex.outsideSubset(fmt.Sprintf("control-flow graph of %s is not reducible to a topological order (block %d before its predecessor %d)", fn.Name(), b.Index, p.Index))
+			}
+		}
 		if len(edges) == 0 {
 			continue
 		}
